@@ -119,6 +119,8 @@ def _r1b(ctx):
         if isinstance(v, ast.Call) and (pm.call_name(v) or "") in ("list", "tuple", "sorted", "set") and v.args \
                 and U(v.args[0]) == "instruction_data.port_pressure":
             return False        # iterating an alternatives map yields its keys (C15-R3 has the data fact)
+        if isinstance(v, ast.Attribute) and U(v.value) == "instruction_data":
+            return False        # another field of the entry
         return None
     pus = [(n, same_container(C.flow_of(h).subst(b["M_v"]))) for n, b in pm.find("instruction_form.port_uops = M_v", h.node)
            if U(b["M_v"]) != "[]"]
